@@ -82,6 +82,14 @@ M = {
  "C11_bump_down_fast_off_by_one": (["C11", "C01"], "src/bumping.rs",
     "    if size_is_const && layout.size() <= MIN_CHUNK_ALIGN {", "    if size_is_const && layout.size() <= MIN_CHUNK_ALIGN + 1 {"),
 }
+
+M["C06_map_in_place_guard_double_drop"] = (["C06"], "src/bump_box.rs",
+    "                    // drop `T`s\n                    let drop_ptr = self.src.add(1);\n                    let drop_len = pointer::offset_from_unsigned(self.end, drop_ptr);\n                    ptr::slice_from_raw_parts_mut(drop_ptr, drop_len).drop_in_place();\n\n                    // drop `U`s\n                    let drop_ptr = self.ptr.cast::<U>().as_ptr();",
+    "                    // drop `T`s\n                    let drop_ptr = self.src;\n                    let drop_len = pointer::offset_from_unsigned(self.end, drop_ptr);\n                    ptr::slice_from_raw_parts_mut(drop_ptr, drop_len).drop_in_place();\n\n                    // drop `U`s\n                    let drop_ptr = self.ptr.cast::<U>().as_ptr();")
+M["C08_map_new_cap_by_align"] = (["C08", "C16", "C01"], "src/bump_vec.rs",
+    "                let new_cap = (cap * T::SIZE) / U::SIZE;", "                let new_cap = (cap * T::SIZE) / U::ALIGN;")
+M["C08_fixed_map_in_place_cap_not_rescaled"] = (["C08", "C16"], "src/fixed_bump_vec.rs",
+    "                (capacity * T::SIZE) / U::SIZE\n", "                capacity\n")
 M.pop("C13_without_shrink_forwards")
 M.pop("C07_link_before_success")
 
